@@ -802,3 +802,7 @@ def _r17_8(res, P, cfgname):
         else:
             res.fail("R17.8", cfgname, key, "%s must be an unsafe fn (its result aliases static memory and must never be dropped or mutated)" % p, span_loc(f["sp"]))
     res.floor("R17.8", cfgname, n, 12, "allocator / deallocate_raw / from_static_words call sites")
+
+
+LEVEL = LEVEL + ' Compile-fail witnesses (thorough): storage fields and tuple constructors are private, from_static_words is unsafe, &UBig -> &IBig hands out shared references only.'
+TECHNIQUE = 'unsafe-operation inventory from MIR + HIR with per-kind discharge rules: dominating capacity / len guards surviving release, who-may-construct / who-may-write tables, NonZero provenance, copy-count = guarded quantity, sign typestate of UBig constructions, allocation pairing incl. clone_from (leak, stale sign read); compile-fail witnesses'
